@@ -233,7 +233,8 @@ def _worker(task):
 
     t0 = time.time()
     try:
-        r = E.explore(fn, forced=forced, max_depth=max_depth, deadline=deadline, on_path=on_path, max_paths=max_paths)
+        r = E.explore(fn, forced=forced, max_depth=max_depth, deadline=deadline, on_path=on_path, max_paths=max_paths,
+                      slice_s=SLICE_S if max_depth is None else None)
     except Exception:
         return {"unit": unit.name, "cidx": cidx, "crash": traceback.format_exc()[-1500:], "cfg": cfg}
     st["exhausted"] = r["exhausted"]
@@ -296,20 +297,27 @@ def run_property(modname, prop, tier, seed, nproc=None, budget_s=None):
     ctx = mp.get_context("fork")
     crashes = []
     with ctx.Pool(nproc) as pool:
-        pending = tasks
-        phase = 0
-        while pending:
-            nxt = []
-            for st in pool.imap_unordered(_worker, pending, chunksize=1):
+        # dynamic queue: every finished task may hand back forced prefixes (sharding / work splitting)
+        running = [(t, pool.apply_async(_worker, (t,))) for t in tasks]
+        while running:
+            still = []
+            progressed = False
+            for t, ar in running:
+                if not ar.ready():
+                    still.append((t, ar))
+                    continue
+                progressed = True
+                st = ar.get()
                 if "crash" in st:
                     crashes.append(st)
                     continue
                 results.append(st)
                 for pf in st.get("truncated", []):
-                    base = next(t for t in pending if t[2] == _uidx(units, st["unit"]) and t[3] == st["cidx"])
-                    nxt.append(base[:5] + (pf, None) + base[7:])
-            pending = nxt
-            phase += 1
+                    nt = t[:5] + (pf, None) + t[7:]
+                    still.append((nt, pool.apply_async(_worker, (nt,))))
+            running = still
+            if not progressed:
+                time.sleep(0.01)
     # ---- aggregate
     tot = {"paths": 0, "inconclusive": 0, "nontrivial": 0, "discharged": 0, "q_unknown": 0, "queries": 0,
            "solver_s": 0.0, "unknowns": 0, "witness_ok": 0, "nonrepro": 0, "realisations": 0}
@@ -352,6 +360,7 @@ def run_property(modname, prop, tier, seed, nproc=None, budget_s=None):
 
 
 LEVELS = {"C09": "other", "C10": "other"}
+SLICE_S = 3.0      # a task that runs longer hands the rest of its subtree back to the pool
 
 
 def _uidx(units, name):
